@@ -1,4 +1,4 @@
-CONSTANTS W = 16  MaxFile = 5  MaxDepth = 1  Wrapping = TRUE
+CONSTANTS W = 16  MaxFile = 5  MaxDepth = 1  MaxVar = 1  Wrapping = TRUE  EndOf = "checked_add"
 INIT Init
 NEXT Next
 CONSTRAINT Bounded
